@@ -123,3 +123,18 @@ reg("C17",
     "bounds, S(0)=0, monotonicity in phi at every iteration count and equality with a fresh object after any query "
     "history are asserted on every generated network. " + EXPL,
     "fixed-point clause only away from slow-convergence points; networks up to 11 (quick) / 15 vertices")
+
+reg("C11",
+    "property-based testing (Hypothesis) over networks x targets x limits x RNG schedules with a journalling nx.Graph subclass observing every accepted swap; clause-wise invariants over the swap history",
+    "Input untouched, vertex set / annotations / per-topology degrees, motif shape per motif id (isomorphism to the "
+    "original motif), no self-loop or duplicate edge, and no exception for any admissible parameter dict are asserted "
+    "after every accepted swap batch and on the returned graph. The motif-shape clause is reported as the OPEN known "
+    "finding only when exchanging the ids of the two new corner groups repairs it. " + EXPL,
+    "termination is not part of the property: runs cut by the RNG-draw budget are inconclusive; clause (C) is suspended for the rest of a history once the open finding has manifested in it")
+
+reg("C12",
+    "property-based testing (Hypothesis) with journalled edge creations against generated targets with removed pairings; seeded before/after distance comparison on configuration-style networks",
+    "Every edge created during a run must have positive target weight for its end points' excess pair (both "
+    "orientations) in its topology; on enumerated larger networks with assortative targets the L1 distance to the "
+    "target must decrease (harness-side extractor). " + EXPL,
+    "approach clause is decided on 6 (quick) / 24 seeded networks with a large expected margin; budget-cut runs are inconclusive")
